@@ -356,18 +356,22 @@ func ptInv(pt *PrefixTable) bool {
 //@   requires pt.me != nil && pt.config != nil
 //@   modifies pt.me.Known, pt.me.Latest, pt.snapshotAt, pt.repo[*]
 
-// Announce / Withdraw (C19): the router's own announced set gains / loses exactly the given name.
+// Announce / Withdraw (C19): the router's own announced set gains / loses exactly the given name, and it does so BEFORE the
+// operation is published: publishOp may publish a snapshot of the set under the operation's sequence number, and a peer
+// that starts from that snapshot never replays the operation.
 //
 //@ func (*PrefixTable).Announce
 //@   requires pt.me != nil && pt.me.Prefixes != nil && pt.config != nil
 //@   modifies pt.me.Prefixes[*], pt.me.Known, pt.me.Latest, pt.snapshotAt, pt.repo[*]
 //@   ensures pt.me.hasPfx(enc.SpecNameHash(name)) && pt.me.Prefixes[enc.SpecNameHash(name)] != nil
+//@   assert before publishOp@1 [state-before-publish] pt.me.hasPfx(enc.SpecNameHash(name)) && pt.me.Prefixes[enc.SpecNameHash(name)] != nil
 //@   ensures forall(func(k uint64) bool { return k != enc.SpecNameHash(name) ==> pt.me.hasPfx(k) == old(pt.me.hasPfx(k)) && pt.me.Prefixes[k] == old(pt.me.Prefixes[k]) })
 
 //@ func (*PrefixTable).Withdraw
 //@   requires pt.me != nil && pt.me.Prefixes != nil && pt.config != nil
 //@   modifies pt.me.Prefixes[*], pt.me.Known, pt.me.Latest, pt.snapshotAt, pt.repo[*]
 //@   ensures !pt.me.hasPfx(enc.SpecNameHash(name)) || pt.me.Prefixes[enc.SpecNameHash(name)] == nil
+//@   assert before publishOp@1 [state-before-publish] !pt.me.hasPfx(enc.SpecNameHash(name)) || pt.me.Prefixes[enc.SpecNameHash(name)] == nil
 //@   ensures forall(func(k uint64) bool { return k != enc.SpecNameHash(name) ==> pt.me.hasPfx(k) == old(pt.me.hasPfx(k)) && pt.me.Prefixes[k] == old(pt.me.Prefixes[k]) })
 
 // ---------------------------------------------------------------------------------------
